@@ -63,6 +63,22 @@ Section Gate.
       else body f c1 l w
     end.
 
+  (* The same function with t.goFunctionCallDepth made explicit as thread state: the gate returns BEFORE
+     the increment; past the gate the counter is incremented and the deferred decrement runs on every
+     path (return, error, panic).  Second component = the counter after the call. *)
+  Definition run_in_thread_depth (now : Z) (depth : Z) (f : gofunction) (c : ctx) (l : Lua) (w : World)
+    : (outcome * ctx * Lua * World) * Z :=
+    let missingFlags := missing (flags c) (declared f) in
+    if negb (N.eqb missingFlags 0) then ((LuaError (missing_msg missingFlags), c, l, w), depth) else
+    match requireCPU now 1 c with
+    | RTerm c1 t => ((Terminated t, c1, l, w), depth)
+    | RPanic c1 => ((GoPanic, c1, l, w), depth)
+    | ROk c1 =>
+      let d1 := (depth + 1)%Z in
+      let res := if (maxGoFunctionCallDepth <? d1)%Z then (LuaError "stack overflow", c1, l, w) else body f c1 l w in
+      (res, (d1 - 1)%Z)
+    end.
+
   (* safeio.*: if r.RequiredFlags()&rt.ComplyIoSafe != 0 { return ErrNotAllowed } ; return os.X(...) *)
   Inductive io_result (A : Type) := NotAllowed | Performed (a : A).
   Definition safeio (A : Type) (c : ctx) (prim : World -> A * World) (w : World) : io_result A * World :=
@@ -121,6 +137,34 @@ Section Gate.
     let '(_, c1, l1, w1) := run_in_thread now depth f c l w in
     run_in_thread now depth g c1 l1 w1 = run_in_thread now depth g c l w.
   Proof. intros now depth f g c l w H. rewrite gate_blocks by exact H. reflexivity. Qed.
+
+  (* the Go call depth is the same after every call, rejected or not: any number of rejected
+     calls leaves the thread exactly as able to call Go functions as before *)
+  Theorem call_depth_balanced : forall now depth f c l w,
+    snd (run_in_thread_depth now depth f c l w) = depth /\
+    fst (run_in_thread_depth now depth f c l w) = run_in_thread now depth f c l w.
+  Proof.
+    intros now depth f c l w. unfold run_in_thread_depth, run_in_thread.
+    destruct (negb (N.eqb (missing (flags c) (declared f)) 0)); [split; reflexivity|].
+    destruct (requireCPU now 1 c); cbn [fst snd]; split; try reflexivity. apply Z.add_simpl_r.
+  Qed.
+
+  Fixpoint run_many (now : Z) (depth : Z) (fs : list gofunction) (c : ctx) (l : Lua) (w : World) : ctx * Lua * World * Z :=
+    match fs with
+    | [] => (c, l, w, depth)
+    | f :: rest => let '((_, c1, l1, w1), d1) := run_in_thread_depth now depth f c l w in run_many now d1 rest c1 l1 w1
+    end.
+
+  (* any sequence of rejected calls, however long, changes nothing at all *)
+  Theorem rejected_calls_change_nothing : forall now fs depth c l w,
+    Forall (fun f => missing (flags c) (declared f) <> 0%N) fs ->
+    run_many now depth fs c l w = (c, l, w, depth).
+  Proof.
+    intros now fs; induction fs as [|f rest IH]; intros depth c l w H; [reflexivity|].
+    inversion H as [|? ? Hf Hr]; subst. cbn [run_many]. unfold run_in_thread_depth.
+    destruct (N.eqb (missing (flags c) (declared f)) 0) eqn:E; [apply N.eqb_eq in E; contradiction|].
+    cbn [negb]. apply IH. exact Hr.
+  Qed.
 
   (* safeio refuses under iosafe and leaves the world untouched *)
   Theorem safeio_refuses : forall A c prim w,
